@@ -72,11 +72,12 @@ def eeHandStep (N : Nat) (s : EEState) : EEOp → W (EEState × String)
   | .setWindow w =>
       if w > 0 then do let h ← histSetSize s.hist w; pure ({ s with hist := h }, "w1")
       else pure (s, "w0")
-  | .moveConstruct => pure (s, "m")
-  | .moveSelf => pure (s, "m")
+  -- the token carries the window `getInfo()` reports afterwards (the method in use is the one last set: checked by the harness)
+  | .moveConstruct => pure (s, s!"m:{s.hist.window}")
+  | .moveSelf => pure (s, s!"m:{s.hist.window}")
   -- move assignment hands over the method, the history buffer, the cached window weights AND linear_size_ / circular_size_ / state_size_
-  | .moveAssignFrom ls2 cs2 w k m => do let o ← eeOther ls2 cs2 w k m N; pure (o, "m")
-  | .moveAssignInto ls2 cs2 w k m => do let _ ← eeOther ls2 cs2 w k m N; pure (s, "m")
+  | .moveAssignFrom ls2 cs2 w k m => do let o ← eeOther ls2 cs2 w k m N; pure (o, s!"m:{o.hist.window}")
+  | .moveAssignInto ls2 cs2 w k m => do let _ ← eeOther ls2 cs2 w k m N; pure (s, s!"m:{s.hist.window}")
 
 def eeHandRun (N : Nat) : EEState → List EEOp → W (List String)
   | _, [] => pure []
